@@ -6,6 +6,9 @@ NOTE = ("Trusted: Coq 8.16.1 kernel + vm_compute; no axioms (Print Assumptions: 
         "The hand-written model is tied to /repo by the correspondence run on every check.")
 CHECKS = {
  "C06": ("proof", "Theorems (coq/Properties/C06.v): write-then-list round trip for every file list without empty-data files, and the model reader returns exactly the files of ANY well-formed stream (inductive grammar: arbitrary gaps/leaders, any 1..255 chunking); the full statement is refuted for empty-data files (known finding tape_empty_file, witness replayed). Correspondence: model writer/reader vs cassette.py on generated file lists, general well-formed streams and malformed streams.", "6 C06/C14", "Coq proof (induction over stream grammar) + model/implementation correspondence"),
+ "C07": ("proof", "Theorems (coq/Properties/C07.v): for EVERY file list the model writer stores on a blank image under ANY fill order of granule numbers, the model reader and the spec view SpecDisk.files of the flat 161,280-byte image return exactly the files written (names upper-cased/8, ext/3, addresses for ML files); and the model reader returns SpecDisk.files img on ANY 161,280-byte image where that view is defined (chains in any order, non-adjacent, across track 17), under two stated domain restrictions (ASCII directory names; no ASCII-kind file ending in a $C0 terminator). Correspondence: MDisk writer byte-for-byte and reader vs disk.py on add sequences, independently built fragmented images and corrupted images.", "6 C07/C08/C15", "Coq proof (history-based writer model, chain-walk reader, slice/render isomorphism) + byte-exact correspondence"),
+ "C08": ("proof", "Theorem C08_every_written_image_is_valid: for EVERY add sequence from the blank image under ANY fill order of granule numbers, the flat image passes SpecDisk.fsck (size; chains within 0..67, no revisit, $C0+s terminator s<=9; disjoint chains; every non-free FAT entry on a chain; implied length = stream length; stream decodes in chain order; everything else still $FF). Correspondence: image byte-for-byte vs DiskFile.add_file; oracle: extracted fsck on the implementation's image.", "6 C07/C08/C15", "Coq proof (invariant wf_state over add sequences, pointwise FAT/granule views) + byte-exact correspondence"),
+ "C15": ("proof", "Theorems (coq/Properties/C15.v): on every reachable state a file needing n <= F granules is stored in exactly n distinct previously-free granules and one slot, F drops by n; n is the minimum (+1 at exact multiples); n > F fails with the tool's diagnostic and no state change; the regenerated default fill order covers all 68 granules and the regenerated slot-search bound exceeds 68; the free count read from the flat image equals the model's. Correspondence: per-step accounting on the implementation's images, fill-to-exhaustion runs, default and permuted orders.", "6 C07/C08/C15", "Coq proof (allocation lemmas by induction, regenerated fill order checked by vm_compute reflection) + correspondence"),
  "C14": ("proof", "Theorem C14_written_tape_wellformed: for EVERY file list the model writer's stream parses under the checksum-verifying spec parser SpecTape.parse to exactly the files written (no hypothesis on content or length). Correspondence: byte-for-byte MCassette.write vs CassetteFile.add_files; oracle: extracted SpecTape.parse on the implementation's bytes.", "6 C06/C14", "Coq proof (induction on data length / file list) + byte-exact correspondence"),
 }
 NA = []
